@@ -195,7 +195,7 @@ def restart_prologue(sc, warm):
     sc.meta["restarted"] = True
 
 
-def build(seed: int, family: str | None = None) -> Scenario:
+def build(seed: int, family: str | None = None, allow_restart: bool = True) -> Scenario:
     rs = np.random.RandomState(seed % (2**32))
     sc = Scenario()
     sc.rs = rs
@@ -380,8 +380,13 @@ def build(seed: int, family: str | None = None) -> Scenario:
     calc = mc.atoms.calc
     sc.fresh = lambda c=calc: fresh_like(c)
     sc.meta["restarted"] = False
-    if rs.rand() < 0.25:
-        restart_prologue(sc, warm=int(rs.randint(0, 3)))
+    if rs.rand() < 0.25 and allow_restart:
+        try:
+            restart_prologue(sc, warm=int(rs.randint(0, 3)))
+        except Exception:  # noqa: BLE001
+            # the unrecorded warm-up steps ran into a recorded finding that corrupts the run (e.g. two particles inserted by
+            # one trial share a label and are then deleted twice): record this scenario from its start instead
+            return build(seed, family, allow_restart=False)
     sc.meta["calc"] = type(calc).__name__
     sc.meta["calcStyle"] = getattr(calc, "style", "?")
     sc.steps = int(rs.randint(3, 9))
